@@ -563,6 +563,19 @@ class _Canon(ast.NodeTransformer):
         self.generic_visit(node)
         return node
 
+    def visit_Subscript(self, node: ast.Subscript):
+        self.generic_visit(node)
+        if isinstance(node.ctx, ast.Load) and isinstance(node.slice, ast.Constant) and type(node.slice.value) is int:
+            v, k = node.value, node.slice.value
+            # (a, b)[1] == b
+            if isinstance(v, (ast.Tuple, ast.List)) and not any(isinstance(e, ast.Starred) for e in v.elts) and -len(v.elts) <= k < len(v.elts):
+                return v.elts[k]
+            # (x if c else y)[k] == x[k] if c else y[k]
+            if isinstance(v, ast.IfExp):
+                mk = lambda arm: self.visit_Subscript(ast.Subscript(value=arm, slice=copy.deepcopy(node.slice), ctx=ast.Load()))
+                return ast.IfExp(test=v.test, body=mk(v.body), orelse=mk(v.orelse))
+        return node
+
     def visit_Call(self, node: ast.Call):
         self.generic_visit(node)
         # min(gen, default=d)  ==  min(gen) if <iterated> else d     (gen without filters)
